@@ -581,7 +581,10 @@ class VectorPowerSum(Expression):
         for var in variables:
             if var in my_vars:
                 # Gradient: k * x[i] ** (k-1)
-                if k == 1:
+                if k == 0:
+                    # x**0 is the constant 1: not 0 * x**(-1), which is NaN at x = 0
+                    result.append(Constant(0.0))
+                elif k == 1:
                     result.append(Constant(1.0))
                 elif k == 2:
                     # 2 * x[i]
